@@ -193,6 +193,8 @@ func TestExactFPAgreesWithFloatEvaluation(t *testing.T) {
 		FToS(FRound(FMul(sys, FPC(0.375)), RTP), 64),
 		FToS(FRound(FMul(sys, FPC(0.375)), RTN), 32),
 		FToS(FMul(sys, FPC(0.375)), 64),
+		FToS(FRound(FMul(sys, FPC(0.375)), RNA), 64),
+		FToS(FRound(FMul(FDiv(FFromS(x), FPC(4096)), FPC(100)), RNA), 64),
 		FLt(FAdd(fx, fz), FMul(fy, FPC(3))),
 		FLe(FAbs(sys), FMax(fx, FNeg(fy))),
 		FEq(FMin(fx, fy), fz),
